@@ -167,6 +167,22 @@ pub fn run(tier: &str) -> i32 {
                 acc.violate(&format!("own-template-not-PASS:{}", cause), format!("rule {} is {} on the template it was generated from | rules `{}` template `{}`", nme, st.txt(), p.out.trim(), text.trim()), replay("PASS", st.txt().into()));
             }
         }
+        // (3') the same through the validate command on the template file as written (its loader is not the library's)
+        {
+            let gp = put(&format!("c19/gen_{}.guard", fmt), &p.out);
+            let vo = cli_inproc(&sv(&["validate", "-r", &gp, "-d", &tp, "-S", "all"]), "");
+            acc.traces += 1;
+            let table = crate::report::parse_plain(&vo.out, "sls");
+            let mut not_pass: Vec<String> = vec![];
+            for tb in &table.tables {
+                not_pass.extend(tb.fail.iter().cloned());
+                not_pass.extend(tb.skip.iter().cloned());
+            }
+            let lib_all_pass = rules.iter().all(|(_, st)| *st == St::Pass);
+            if lib_all_pass && (vo.panic.is_some() || !not_pass.is_empty() || vo.status() != 0) {
+                acc.violate(&format!("own-template-not-PASS:validate-command:{}", classify(rs, None)), format!("the emitted rules PASS on the template through the library but `validate` gives exit {} with {:?} not PASS | rules `{}` template `{}`", vo.status(), not_pass, p.out.trim(), text.trim()), replay("PASS, exit 0", format!("exit {} not PASS {:?}", vo.status(), not_pass)));
+            }
+        }
         // (2b) --output FILE: the file holds exactly this run's rules, whatever it held before (absent / shorter / longer)
         if fmt == "json" && (thorough || ti % 8 == 0) {
             for (stale_name, stale) in [("absent", None), ("shorter", Some("# old\n".to_string())), ("longer", Some(format!("# STALE-CONTENT\nrule stale_rule {{ a exists }}\n{}", "# STALE-TAIL }} )) \n".repeat(400))))] {
